@@ -385,4 +385,23 @@ theorem nameToHandle_ans (s : State) (f : Fd) (fl sz k : Nat) (h : (step s (.nam
         cases h
         simp
 
+/-- the export root is a constant of the host -/
+theorem stepCore_exportRoot (s : State) (c : HCall) : (stepCore s c).2.exportRoot = s.exportRoot := by
+  have hopen : ∀ (st : State) (o : Obj) (fl : Nat), (openObj st o fl).2.exportRoot = st.exportRoot := by
+    intro st o fl; unfold openObj; repeat' split
+    all_goals rfl
+  have htimes : ∀ (st : State) (o : Obj) (a b c d : Nat), (setTimes st o a b c d).2.exportRoot = st.exportRoot :=
+    fun st o a b c d => (same_setTimes st o a b c d).2.2.2.2.1
+  have hchmod : ∀ (st : State) (o : Obj) (m : Nat), (chmodObj st o m).2.exportRoot = st.exportRoot :=
+    fun st o m => (same_chmodObj st o m).2.2.2.2.1
+  have hren : ∀ (st : State) (a b : Obj) (x y : Name) (c : Obj) (cn : Node) (t : Option Obj),
+      (renameApply st a b x y c cn t).exportRoot = st.exportRoot :=
+    fun st a b x y c cn t => (same_renameApply st a b x y c cn t).2.2.2.2.1
+  cases c <;> simp only [stepCore]
+  all_goals (repeat' split)
+  all_goals first | rfl | exact hopen _ _ _ | exact htimes _ _ _ _ _ _ | exact hchmod _ _ _ | exact hren _ _ _ _ _ _ _ _
+
+theorem step_exportRoot (s : State) (c : HCall) : (step s c).2.exportRoot = s.exportRoot := by
+  rw [(same_step s c).2.2.2.2.1]; exact stepCore_exportRoot s c
+
 end Fbr.Host.Ref
